@@ -5,7 +5,7 @@
 3. stores everything under /verif/seeded/<seed id>/ with the outcome in meta.json."""
 import sys, os, json, subprocess, shutil, time, re
 
-ROOT = "/verif"
+ROOT = os.path.dirname(os.path.dirname(os.path.abspath(__file__)))
 
 
 def sh(cmd, cwd=None, timeout=1800):
